@@ -311,6 +311,110 @@ def refusals():
     return out
 
 
+NODE_DRIVER = r"""
+#include <math.h>
+#include <stdio.h>
+#include "naunet_macros.h"
+#include "naunet_constants.h"
+#include "naunet_physics.h"
+#define NX(a) ((int)(sizeof(a) / sizeof(a[0])))
+static long judged = 0, skipped = 0, bad = 0;
+static char first[400] = "";
+static void judge(const char *tab, int i, int j, int k, double want, double got) {
+    judged++;
+    if (!(fabs(got - want) <= 1e-9 * fabs(want))) {
+        if (!bad) snprintf(first, sizeof first, "%s node (%d,%d,%d): table value %.17g, helper returns %.17g", tab, i, j, k, want, got);
+        bad++;
+    }
+}
+static int pos(double v) { return v > 0.0 && isfinite(v); }
+int main() {
+#ifdef VERIF_H2
+    for (int i = 0; i < NX(H2ShieldingTableX); i++) {
+        int ok = pos(H2ShieldingTableX[i]) && pos(H2ShieldingTable[i]);
+        for (int d = -1; d <= 1 && ok; d++) if (i + d >= 0 && i + d < NX(H2ShieldingTableX)) ok = pos(H2ShieldingTable[i + d]) && pos(H2ShieldingTableX[i + d]);
+        if (!ok) { skipped++; continue; }
+        judge("H2 (L96)", i, 0, 0, H2ShieldingTable[i], GetH2shieldingInt(H2ShieldingTableX[i]));
+    }
+#endif
+#define CUBE(NAME, X, Y, Z, T, F)                                                                          \
+    for (int i = 0; i < NX(X); i++) for (int j = 0; j < NX(Y); j++) for (int k = 0; k < NX(Z); k++) {         \
+        int ok = pos(X[i]) && pos(Y[j]) && pos(Z[k]);                                                         \
+        for (int a = -1; a <= 1 && ok; a++) for (int b = -1; b <= 1 && ok; b++) for (int c = -1; c <= 1 && ok; c++) { \
+            int ii = i + a, jj = j + b, kk = k + c;                                                           \
+            if (ii < 0 || jj < 0 || kk < 0 || ii >= NX(X) || jj >= NX(Y) || kk >= NX(Z)) continue;            \
+            ok = pos(T[ii][jj][kk]) && pos(X[ii]) && pos(Y[jj]) && pos(Z[kk]);                                \
+        }                                                                                                     \
+        if (!ok) { skipped++; continue; }                                                                     \
+        judge(NAME, i, j, k, T[i][j][k], F(X[i], Y[j], Z[k]));                                                \
+    }
+#ifdef VERIF_CO
+    CUBE("CO (V09)", COShieldingTableX, COShieldingTableY, COShieldingTableZ, COShieldingTable, GetCOshieldingInt)
+#endif
+#ifdef VERIF_N2
+    CUBE("N2 (L13)", N2ShieldingTableX, N2ShieldingTableY, N2ShieldingTableZ, N2ShieldingTable, GetN2shieldingInt)
+#endif
+    FILE *o = fopen("nodes.txt", "w");
+    fprintf(o, "%ld %ld %ld\n%s\n", judged, skipped, bad, first);
+    fclose(o);
+    return 0;
+}
+"""
+
+
+def shielding_nodes(which):
+    """The tabulated shielding functions (H2: Lee+1996, CO: Visser+2009, N2: Li+2013) enter the photo-rates as a
+    factor the generated helper interpolates from the generated table.  Whatever the interpolation scheme, at a
+    table node it must give back the table value: the compiled helper is called at EVERY node of the generated
+    table (nodes with a non-positive neighbour are not judged: the log-space scheme is undefined there)."""
+    import shutil
+    import tempfile
+    from pathlib import Path
+
+    from ..harness import ratesrun as RR
+    from ..harness.cxx import GXX, SHIM, run as runcmd
+    from ..harness.render import render, reset_globals, quiet, scratch
+
+    reset_globals()
+    from naunet.network import Network
+    from naunet.reactions.reaction import Reaction
+    from naunet.reactiontype import ReactionType
+
+    table = {"H2": "L96Table", "CO": "V09Table", "N2": "L13Table"}[which]
+    case = {"shielding_nodes": which}
+    with quiet():
+        net = Network([Reaction(["H", "H"], ["H2"], -1.0, -1.0, 1e-17, 0.0, 0.0, ReactionType.GAS_TWOBODY, 1)], required_species=["H2", "CO", "N2", "H"], shielding={which: table})
+        files = render(net, "dense", RR.RATE_TEMPLATES_CVODE)
+    d = Path(tempfile.mkdtemp(dir=scratch()))
+    try:
+        for rel, text in files.items():
+            p_ = d / rel
+            p_.parent.mkdir(parents=True, exist_ok=True)
+            p_.write_text(text)
+        (d / "driver.cpp").write_text(NODE_DRIVER)
+        srcs = [x for x in ("src/naunet_constants.cpp", "src/naunet_physics.cpp", "src/naunet_utilities.cpp") if (d / x).exists()]
+        rc, so, se = runcmd([GXX, "-std=c++17", "-w", "-O0", "-g", "-fsanitize=address,undefined", "-fno-sanitize-recover=all", f"-DVERIF_{which}", "-I", str(SHIM), "-I", "include", *srcs, "driver.cpp", "-o", "drv", "-lm"], cwd=str(d), timeout=600)
+        if rc != 0:
+            first = next((ln for ln in se.splitlines() if "error" in ln), se[:200])
+            return which, 0, [(f"C05:shielding-nodes:{which}:compile", f"{which} {table}: {first[:300]}", case)]
+        import subprocess
+
+        pr = subprocess.run(["./drv"], cwd=str(d), capture_output=True, timeout=600, env={"ASAN_OPTIONS": "detect_leaks=0"})
+        if pr.returncode != 0:
+            err = pr.stderr.decode(errors="replace")
+            head = next((ln for ln in err.splitlines() if "ERROR: AddressSanitizer" in ln or "runtime error" in ln), err[:300])
+            return which, 0, [(f"C05:shielding-nodes:{which}:sanitizer", f"{which} {table}: evaluating the helper at the table nodes: {head[:300]}", case)]
+        l1, l2 = ((d / "nodes.txt").read_text().split("\n") + [""])[:2]
+        judged, skipped, bad = (int(x) for x in l1.split())
+        if judged == 0:
+            raise HarnessError(f"shielding nodes {which}: nothing judged (skipped {skipped})")
+        if bad:
+            return which, judged, [(f"C05:shielding-nodes:{which}", f"{which} {table}: at {bad} of {judged} table nodes the compiled helper does not return the table value; first: {l2}", case)]
+        return which, judged, []
+    finally:
+        shutil.rmtree(d, ignore_errors=True)
+
+
 def run(ctx):
     ps = packs(ctx.tier)
     total = nval = skipped = 0
@@ -320,7 +424,13 @@ def run(ctx):
         nval += nv
         skipped += sk
         ctx.absorb(viols)
+    nodes = {}
+    for which, n, viols in ctx.pmap(shielding_nodes, ["H2", "CO", "N2"]):
+        nodes[which] = n
+        nval += n
+        ctx.absorb(viols)
     ctx.assumptions += [
+        "the tabulated shielding functions themselves are judged by an interpolation invariant only: at every node of the generated table (positive neighbourhood) the compiled helper returns the table value; values between nodes and beyond the table are not judged",
         "reference laws: KIDA formulae 1-5 (Wakelam+2012), UMIST RATE12 (McElroy+2013), Walsh+2015 (Leeds), UCLCHEM v1.3, transcribed in mc/ref/ratelaws.py; zism = 1.3e-17",
         "shielding/scattering helper values entering a law are taken from the compiled helpers themselves, so only the law around them is judged",
         "comparison: relative 1e-12 or identical inf/nan class; window guards are C06's subject (all windows here are 1..99999 K)",
@@ -338,11 +448,15 @@ def run(ctx):
         "grid_points": len(GRID),
         "packs_compiled": len(ps),
         "not_representable_in_format": skipped,
+        "shielding_table_nodes_judged": nodes,
         "exhaustive": True,
     }
 
 
 def replay(ctx, case):
+    if "shielding_nodes" in case:
+        ctx.absorb(shielding_nodes(case["shielding_nodes"])[2])
+        return
     if "type" not in case:
         ctx.absorb(refusals())
         return
